@@ -44,6 +44,7 @@ var (
 	ErrInvalidBlockHeight                  = errors.New("invalid block height")
 	ErrInvalidBlockTimestamp               = errors.New("invalid block timestamp")
 	ErrInvalidWarpSignature                = errors.New("invalid warp signature")
+	ErrExpiredChunkCert                    = errors.New("expired chunk certificate")
 	ErrInvalidSignatureType                = errors.New("invalid signature type")
 )
 
@@ -334,6 +335,10 @@ func (n *Node[T]) Verify(ctx context.Context, parent Block, block Block) error {
 			n.chainState,
 		); err != nil {
 			return fmt.Errorf("%w %s: %w", ErrInvalidWarpSignature, chunkCert.ChunkID, err)
+		}
+		// a block must not reference expired chunks (BuildBlock never includes them)
+		if chunkCert.Expiry < block.Timestamp {
+			return fmt.Errorf("%w %s: expiry %d < block timestamp %d", ErrExpiredChunkCert, chunkCert.ChunkID, chunkCert.Expiry, block.Timestamp)
 		}
 	}
 
